@@ -128,8 +128,13 @@ WindFullFileReadsAll == (c.fmt = "wind" /\ n = z.fb) => WindOpen(n) = [k |-> "St
 
 \* ---- cloud/rain and lateral boundary
 CloudNeverFabricates == (c.fmt = "cloud_rain" /\ ~CloudAliased(c, n)) =>
-                           LET o == CloudOpenF(c, n) IN o.k = "Steps" => o.n <= Complete(n)
-CloudFullFileReadsAll == (c.fmt = "cloud_rain" /\ n = z.fb) => CloudOpenF(c, n) = [k |-> "Steps", n |-> c.nt, nv |-> c.nv]
+                           LET o == CloudOpenM(c, n) IN o.k = "Steps" => o.n <= Complete(n)
+CloudFullFileReadsAll == (c.fmt = "cloud_rain" /\ n = z.fb) => CloudOpenM(c, n) = [k |-> "Steps", n |-> c.nt, nv |-> c.nv]
+\* the marker comparison never rejects the true reading, and it leaves only
+\* single-step readings of a newer file as an older one (on a 2-cell grid the
+\* slabs have the shape of a time record and more readings survive)
+CloudTrueReadingPasses == (c.fmt = "cloud_rain" /\ n > z.hb /\ (n - z.hb) % z.bb = 0) => CloudMarkersOK(c, c.nv, (n - z.hb) \div z.bb)
+CloudAliasShape == (c.fmt = "cloud_rain" /\ c.nx * c.ny # 2 /\ CloudAliased(c, n)) => (c.nv = 5 /\ CloudOpenM(c, n).n = 1)
 CloudSizes == (c.fmt = "cloud_rain" /\ n = 0) => (CloudHeaderBytes(c) = z.hb /\ CloudStepBytesNV(c, c.nv) = z.bb)
 \* the lateral boundary reader: whole blocks after the eight header records
 LatOpen(nn) ==
